@@ -207,7 +207,8 @@ class C06(Check):
             "15 representative shapes, thorough: the whole fragment), every (grandparent, position) x binary "
             "parent with BOTH operands composite over 6 (quick) / 15 (thorough) shapes; hash-colliding and "
             "typed twin constants in sibling subtrees; 21 names that begin with a keyword or literal "
-            "spelling / differ in case / carry digits and 7 numpy scalar constants in 16 contexts, "
+            "spelling / differ in case / carry digits, 7 numpy scalar constants and 15 float constants "
+            "(17 significant digits, denormal, largest, exponent switch-over) in 16 contexts, "
             "also as attribute, function and keyword names; sums, calls, subscripts and tuples with "
             "65 / 300 (thorough .. 700) operands. Each tree is printed, "
             "parsed, compared after Sum/Product flattening with strict constant types, "
@@ -269,9 +270,13 @@ class C06(Check):
             yield ("t", ("Power", ("Sum", T(*ops)), C(2)))
             yield ("t", ("tuple", *ops))
 
+    # floats whose shortest repr needs 17 digits, extreme exponents, the switch-over points of the
+    # exponent notation
+    FLOATS = (0.1 + 0.2, 1.1 * 3, 1e16 + 2.0, 0.7 + 0.1, 123456789.12345678, 5e-324, 1.7976931348623157e308, 2.2250738585072014e-308, 1e15, 1e16, 1e22, 1e-7, 1e23, 6.02e23, 0.1)
+
     def gen_names(self):
         x = V("x")
-        specials = [V(n) for n in self.NAMES] + list(self.NP)
+        specials = [V(n) for n in self.NAMES] + list(self.NP) + [C(f) for f in self.FLOATS]
         for L in specials:
             for t in (L, ("Sum", T(L, x)), ("Product", T(C(2), L)), ("Power", L, C(2)),
                       ("Power", C(2), L), ("Quotient", x, L), ("Call", V("f"), T(L)),
